@@ -20,7 +20,7 @@ ASSUMPTIONS = [
     'daemons that do not obey the flag are generated with a cancellation_timeout (otherwise they legitimately run forever)',
     'the API-server model and virtual time of kopfsim',
 ]
-BUDGET = {'quick': 40, 'thorough': 1500}
+BUDGET = {'quick': 120, 'thorough': 3000}
 EPS = 1e-6
 FINDING_B = 'C09-B-instances-survive-disappearance-without-deletion-mark'
 REASONS = {'deleted': 'RESOURCE_DELETED', 'mismatch': 'FILTERS_MISMATCH', 'pause': 'OPERATOR_PAUSING', 'exit': 'OPERATOR_EXITING'}
@@ -58,6 +58,16 @@ def scenarios(draw):
         actions.insert(0, {'a': 'create', 'obj': 0, 'v': 1, 'dt': draw(dts)})
     if draw(st.booleans()):
         actions.insert(1, {'a': 'label', 'obj': draw(st.integers(0, 1)), 'v': 'yes', 'dt': draw(dts)})
+    if draw(st.integers(0, 2)) == 0:
+        # aim at the match/mismatch transitions: something filtered by the label, and the label toggling under it
+        hh = draw(st.sampled_from([h for h in handlers if h['kind'] in ('daemon', 'timer')]))
+        hh['labels'] = {'on': 'yes'}
+        tog = [{'a': 'label', 'obj': 0, 'v': 'yes', 'dt': draw(dts)}, {'a': 'label', 'obj': 0, 'v': draw(st.sampled_from(['no', None])), 'dt': draw(dts)},
+               {'a': 'label', 'obj': 0, 'v': 'yes', 'dt': draw(dts)}]
+        pos = draw(st.integers(1, len(actions)))
+        actions = actions[:pos] + tog + actions[pos:]
+        if not any(a['a'] == 'create' and a['obj'] == 0 for a in actions[:pos]):
+            actions.insert(0, {'a': 'create', 'obj': 0, 'v': 1, 'dt': draw(dts)})
     end = draw(st.sampled_from(['run', 'run', 'stop']))
     spec = {'handlers': handlers, 'settings': {'background.cancellation_polling': 2.0, 'persistence.consistency_timeout': 1.0,
                                                'peering.priority': 10, 'queueing.idle_timeout': draw(st.sampled_from([5.0, 0.5]))}}
@@ -185,7 +195,7 @@ def check(run, res, sc, livelock, t_stop):
             v = vers.get(rv)
             body = v['body'] if v else None
             if typ == 'DELETED':
-                triggers.append((t, 'deleted' if saw_mark else 'vanished', None))
+                triggers.append((t, 'deleted' if saw_mark else 'vanished', None, tick))
                 if not saw_mark:
                     forced = True
                 continue
@@ -193,18 +203,20 @@ def check(run, res, sc, livelock, t_stop):
                 continue
             if body['metadata'].get('deletionTimestamp'):
                 if not saw_mark:
-                    triggers.append((t, 'deleted', None))
+                    triggers.append((t, 'deleted', None, tick))
                 saw_mark = True
                 continue
             for hid, h in hs.items():
                 m = matches(h, body)
                 if prev_match.get(hid) and not m:
-                    triggers.append((t, 'mismatch', hid))
+                    triggers.append((t, 'mismatch', hid, tick))
                 prev_match[hid] = m
         for (p0, p1) in pauses:
-            triggers.append((p0, 'pause', None))
+            triggers.append((p0, 'pause', None, None))
         if t_stop is not None:
-            triggers.append((t_stop, 'exit', None))
+            triggers.append((t_stop, 'exit', None, None))
+        triggers4 = triggers
+        triggers = [(t, k, who) for (t, k, who, tick) in triggers4]
         for hid, h in hs.items():
             inst = [c for c in calls if c['uid'] == uid and c['hid'] == hid and c['inc'] == inc]
             if h['kind'] == 'daemon':
@@ -222,7 +234,8 @@ def check(run, res, sc, livelock, t_stop):
                 for a in inst:
                     if a.get('behaviour') != 'obey':
                         continue
-                    relevant = [(t, k) for (t, k, who) in triggers if (who in (None, hid)) and a['t0'] - EPS <= t and (a['t1'] is None or t <= a['t1'] + EPS)]
+                    relevant = [(t, k) for (t, k, who, tick) in triggers4 if (who in (None, hid)) and a['t0'] - EPS <= t and (a['t1'] is None or t <= a['t1'] + EPS)
+                                and (tick is None or tick > a['seq'])]
                     if a.get('flag_seen') is not None:
                         hit = [(t, k) for (t, k) in relevant if abs(t - a['flag_seen']) <= EPS]
                         if not hit:
@@ -261,7 +274,7 @@ def check(run, res, sc, livelock, t_stop):
                         break
                     if not h.get('idle') and h.get('interval') and a['outcome'] == 'ok' and b['t0'] - a['t1'] < h['interval'] - EPS:
                         # two interleaved timer tasks would tick more often than the interval allows
-                        between = [t for (t, k, who) in triggers if a['t1'] - EPS <= t <= b['t0'] + EPS]
+                        between = [t for (t, k, who) in triggers if a['t0'] - EPS <= t <= b['t0'] + EPS]
                         if not between:
                             res.fail('C09/D1-two-instances', f'timer {hid} of {uid} ran at {a["t0"]} and again at {b["t0"]} (interval {h["interval"]}) with no restart reason in between')
                             break
